@@ -16,8 +16,9 @@ TRUSTED_BASE = [
     "correspondence harness harness/props/c14.py + h3common.py + harness/vlib/corr.py (decides what 'agree' means)",
     "pylsqpack (QPACK) and validate_*_headers are oracles: their answers are recorded per call on the real run "
     "(keyed by their arguments) and replayed to the model",
-    "modelled, not verified: aioquic/h3/connection.py receive path as Gallina functions; logging, the sending half "
-    "and the transport are outside the model (the round trip is checked on the implementation only)",
+    "modelled, not verified: aioquic/h3/connection.py receive path (model/H3Parse.v) and sending API (model/H3Send.v, "
+    "tied by the h3send correspondence) as Gallina functions; logging and the transport are outside the models (the "
+    "two-endpoint exchange is additionally checked on the implementation)",
     "model deviation: stream.frame_type is not written when only the first varint of a frame header is available "
     "(unobservable, see docs/C14.md)",
 ]
@@ -35,6 +36,11 @@ ASSUMPTIONS = [
     "frame is the first thing of its delivery on a stream that is new or between two frames; one blocked stream, one "
     "encoder-stream delivery; the decoder is deterministic in its input history: resume_header after the encoder data "
     "arrived returns what feed_header returns once the data is known (o_resume = o_dec), and that is not StreamBlocked",
+    "h3_roundtrip: decode(encode h) = h for the QPACK pair fed in order (o_dec O sid (blk h) = DHeaders h), the header "
+    "lists are valid for the receiving role, a content-length header states the body length, sizes below 2^62; sender: a "
+    "stream nothing was sent on yet whose receiving side has not ended (model/H3Send.v scope)",
+    "interleaving_independent_streams / interleaving_projection: bidirectional streams only, one oracle for the whole "
+    "schedule (no encoder-stream delivery inside it), connection not closed, no stream ended locally (nothing is popped)",
 ]
 
 
